@@ -18,6 +18,8 @@ from __future__ import annotations
 import itertools
 import time
 
+import math
+
 import numpy as np
 
 from runtime import oracles_C07_C09 as O
@@ -270,6 +272,14 @@ def check_detector(rec, inp):
         return info
     th = float(det.threshold_)
     info["threshold"] = th
+    if inp["threshold_scale"] is not None:
+        # the threshold the selection uses must be the REQUESTED one: scale x 2 p log(n M) of the training shape (also for scale 0)
+        want = float(inp["threshold_scale"]) * 2 * Xfit.shape[1] * math.log(Xfit.shape[0] * M)
+        if not close(th, want):
+            rec.violation(f"CircularBinarySegmentation:threshold:{name}", f"threshold_scale={inp['threshold_scale']} on training shape {Xfit.shape}: fitted "
+                          f"threshold_ {th} but the requested threshold is {want}", "C09.threshold", inp)
+            info["nt"] = True
+            return info
     if not (th >= 0):                 # outside the quantifier
         return info
     res, err = O.attempt(lambda: det.predict(rot_frame(X, 2)))
@@ -451,6 +461,7 @@ def _enumerate(rec, tier, seed, bound_out):
                             if info["threshold"] and info["scores"]:
                                 ths = [t for t in _thresholds_from(info["scores"], 4) if t > 0]
                                 variants += [dict(base, threshold_scale=float(t / info["threshold"])) for t in ths][: (2 if quick else 4)]
+                            variants.append(dict(base, threshold_scale=0.0))        # scale 0: every positive score is above the threshold
                             results = [(info["threshold"], info["anomalies"])] if info["anomalies"] is not None else []
                             for d in variants:
                                 inf2 = check_detector(rec, d)
